@@ -127,7 +127,7 @@ func (t *tr) evCall(c *ast.CallExpr) []Term {
 	con := t.V.CS.Funcs[ct.key]
 	// contracts specialised by the static type of the first argument: KEY[T]
 	specialised := false
-	if len(c.Args) > 0 && ct.recv == nil {
+	if len(c.Args) > 0 && ct.holder == nil {
 		if at := t.typeOf(c.Args[0]); at != nil {
 			if c2, ok := t.V.CS.Funcs[ct.key+"["+typeKey(at)+"]"]; ok {
 				con = c2
@@ -244,7 +244,9 @@ func (t *tr) evCall(c *ast.CallExpr) []Term {
 				if _, isLit := ast.Unparen(u.X).(*ast.CompositeLit); !isLit {
 					p, wb := t.addrOfExpr(u.X, true)
 					p.T = params.At(i).Type()
-					if isInterface(p.T) {
+					if i == 0 && specialised {
+						p.T = t.typeOf(a) // type-specialised contract: the concrete pointer
+					} else if isInterface(p.T) {
 						p = t.box(p, t.typeOf(a), p.T)
 					}
 					args = append(args, p)
